@@ -225,7 +225,9 @@ def applyOp (d : DCfg) (holds : Holds) (bholder : Option Nat) (s : St) : List St
     let s' ← (step d.cfg s t (.cbEnd (how != "ok"))).map normGhost
     let (q, ex) := closure (internalSucc d false holds) fuel [s'] [] []
     pure (q, ex, "")
-  | ["hold", "bg", pt] => if pt = "fremoved" ∨ pt = "stop" then some ([s], false, "") else none
+  | ["hold", "bg", pt] =>
+    -- armed for (maybe parked at) the other hold point: the harness skips
+    if (pt = "fremoved" ∨ pt = "stop") ∧ !(holds.any fun h => h.1 == bgHold && h.2 != pt) then some ([s], false, "") else none
   | ["unhold", "bg"] =>
     let (q, ex) := closure (internalSucc d false holds) fuel [s] [] []
     some (q, ex, "")
